@@ -74,17 +74,59 @@ def rule_d1(F):
                     e = [x for x in hir.nodes(iff["then"], "mcall") if x["m"] == "add_edge" and edge_ok(x)]
                     if e and any("ValueKind::Constant" in a for a in alts) and any("ValueKind::Context" in a for a in alts):
                         val_ok = True
-            r.inst("value arm records edge for constants and context", {"ok": val_ok})
-            if not val_ok:
-                r.bad(b.path, "value edge", relfile(b.file), arm["line"], "a reference to a constant / context value is resolved without recording the dependency edge")
             # every successful exit of the arm (a plain value, a field, a method call on the value) lies behind the edge for BOTH kinds
             NEED = {"Constant", "Context"}
+
+            def helper_kinds(e):
+                """a call of a private helper that records the edge: `self.reference(ctx, &dec, kind)` whose body does
+                `if let Constant | Context(..) = kind { self.references.add_edge(ctx.item, dec.name) }`"""
+                d = e.get("def") if e.get("k") == "mcall" else (hir.call_def(e) if e.get("k") == "call" else None)
+                hb = F.body(d) if d and F.has(d) else None
+                if hb is None or not hb.hir or hb.file != b.file:
+                    return set()
+                # the call must be given this arm's context parameter and the matched declaration
+                sc = hir.peel_refs(hir.strip(ms[-1]["e"]))
+                sc_local = hir.res_local(hir.peel_refs(sc["e"])) if sc.get("k") == "field" else hir.res_local(sc)
+                pidx = hir.param_index(b.hir)
+                arg_locals = {hir.res_local(hir.peel_refs(hir.strip(a))) for a in e.get("args", [])}
+                if sc_local not in arg_locals or not any(l in pidx and "Context" in (b.hir["params"][pidx[l]].get("ty") or "") for l in arg_locals if l is not None):
+                    return set()
+                hp = {p_.get("local"): (p_.get("ty") or "") for p_ in hb.hir.get("params", []) if p_.get("k") == "bind"}
+
+                def h_edge_ok(c):
+                    a0 = hir.peel_refs(c["args"][0])
+                    a1 = hir.peel_refs(c["args"][1])
+                    if not (a0.get("k") == "field" and a0["n"] == "item" and a1.get("k") == "field" and a1["n"] == "name"):
+                        return False
+                    l0_ = hir.res_local(hir.peel_refs(a0["e"]))
+                    l1_ = hir.res_local(hir.peel_refs(a1["e"]))
+                    return "Context" in hp.get(l0_, "") and "Declaration" in hp.get(l1_, "")
+                out = set()
+                body = hir.strip(hb.hir["value"])
+                for n in hir.walk(body):
+                    if n.get("k") == "if" and hir.strip(n["cond"]).get("k") == "let" and any(x["m"] == "add_edge" and h_edge_ok(x) for x in hir.nodes(n["then"], "mcall")):
+                        alts = hir.pat_alternatives(hir.strip(n["cond"])["pat"])
+                        out |= {k for k in NEED if any(("ValueKind::" + k) in a for a in alts)}
+                    if n.get("k") == "match":
+                        for arm_ in n["arms"]:
+                            if any(x["m"] == "add_edge" and h_edge_ok(x) for x in hir.nodes(arm_["body"], "mcall")):
+                                alts = hir.pat_alternatives(arm_["pat"])
+                                out |= {k for k in NEED if any(("ValueKind::" + k) in a for a in alts)}
+                if not out and any(x["m"] == "add_edge" and h_edge_ok(x) for x in hir.nodes(body, "mcall")):
+                    stmts_ = body.get("stmts") or []
+                    if any(hir.strip(s_.get("e") or {}).get("k") == "mcall" and hir.strip(s_["e"])["m"] == "add_edge" for s_ in stmts_ if s_.get("k") == "semi"):
+                        out = set(NEED)
+                return out
 
             def kinds_of(stmt):
                 """value kinds for which this statement records the edge"""
                 e = hir.strip(stmt.get("e") if stmt.get("k") == "semi" else stmt)
                 if not isinstance(e, dict):
                     return set()
+                if e.get("k") in ("mcall", "call") and not (e.get("k") == "mcall" and e["m"] == "add_edge"):
+                    hk = helper_kinds(e)
+                    if hk:
+                        return hk
                 if e.get("k") == "mcall" and e["m"] == "add_edge" and edge_ok(e):
                     return set(NEED)
                 if e.get("k") == "if" and hir.strip(e["cond"]).get("k") == "let":
@@ -155,6 +197,11 @@ def rule_d1(F):
                           "(evaluation order of constants, 'constant uses context') does not see this use (e.g. a method call on a context variable inside a constant)" % " / ".join(sorted(NEED - cov)).lower())
             if not exits:
                 r.missing("successful exits (ResolvedPath::Value / ::Method) of the value arm")
+            # the edge statement itself: written in the arm, or in a private helper the arm calls (then every exit is covered by it)
+            val_ok = val_ok or (bool(exits) and all(NEED <= cov for _x, cov in exits))
+            r.inst("value arm records edge for constants and context", {"ok": val_ok})
+            if not val_ok:
+                r.bad(b.path, "value edge", relfile(b.file), arm["line"], "a reference to a constant / context value is resolved without recording the dependency edge")
     if not (fn_ok or val_ok):
         r.missing("Function/Value arms in resolve_expression_path")
     for fn in ("function", "filter_map", "constant", "test"):
